@@ -40,7 +40,7 @@ BothVariants == {"asis", "fixed"}
 \* ---- guarded spec actions ----------------------------------------------------------------
 GBeginW ==
     /\ IsEv("Begin") /\ Ev.op = "write" /\ pc = "idle"
-    /\ WellFormed(lay) /\ InScope(lay, Len(Ev.msg))
+    /\ WellFormed(lay) /\ InScope(lay, Len(Ev.msg)) /\ lay.old = Ndef(C.old)
     /\ op' = "write" /\ msg' = Ev.msg
     /\ IF Len(Ev.msg) > CodeCap(lay)
        THEN pc' = "rejected" /\ plans' = {}
@@ -49,7 +49,7 @@ GBeginW ==
 
 GBeginF ==
     /\ IsEv("Begin") /\ Ev.op = "format" /\ pc = "idle"
-    /\ WellFormed(lay) /\ lay.fmt # "none"
+    /\ WellFormed(lay) /\ lay.fmt # "none" /\ lay.old = Ndef(C.old)
     /\ op' = "format" /\ msg' = <<Ev.wipe>>
     /\ pc' = "run" /\ plans' = {Tagged(FormatPlan(lay, mem, Ev.wipe, v), v) : v \in BothVariants}
     /\ UNCHANGED <<mem, k, last>>
@@ -116,7 +116,7 @@ FailedInv == SelectSeq(InvNames, LAMBDA n : ~ENABLED (Guarded /\ ResOk /\ InvP(n
 Diag == [kind |-> lay.kind, fmt |-> lay.fmt, op |-> op, n |-> Len(msg), off |-> lay.off, pc |-> pc, k |-> k,
          ph |-> IF Ev.a = "Cmd" /\ Matching # {} THEN (CHOOSE p \in Matching : TRUE).cmds[k + 1].ph ELSE 0,
          long |-> Len(msg) >= LongLen, straddle |-> Straddle(lay), termbad |-> TermSlotBad(lay),
-         wf |-> WellFormed(lay)]
+         wf |-> WellFormed(lay) /\ lay.old = Ndef(C.old)]
 Expected ==
     CASE Ev.a = "Begin" -> <<lay.off, CodeCap(lay), NSkip>>
       [] Ev.a = "Cmd" -> {IF k < Len(p.cmds) THEN <<p.v, p.cmds[k + 1].u, p.cmds[k + 1].d>> ELSE <<p.v, 99999, <<>> >> : p \in plans}
